@@ -12,6 +12,13 @@
 //!          pts_digest format> n=<number of distinct pixels>
 //!   tri.pair ax ay bx by cx cy dx dy      (triangles (a,b,c) and (a,c,d): they share the edge a-c)
 //!       -> p1=<points() of (a,b,c)> p2=<points() of (a,c,d)>   (pts_digest format)
+//!   tri.draw x1 y1 x2 y2 x3 y3 kind bx by bw bh      (C19 only; kind 0 = fill only, 1 = 1-px stroke only)
+//!       -> m=<the points painted by `draw()` on a native-fill recording target whose bounding box is
+//!          (bx,by) bw x bh, row-major, pts_digest format>
+//!          Oracle `C19:tri-draw-ne-points-clipped`: the painted set is exactly the set of `points()`
+//!          (kind 0) / of the outline `pixels()` (kind 1) restricted to the target's box: drawing a triangle
+//!          that is partly outside the target covers what is inside (seeded change C19-r2-2 culled runs
+//!          starting left of the target).
 //!
 //! Oracle. Exact integer geometry (i64), written independently of the library; `cross(a,b,p) =
 //! (b-a) x (p-a)`. Lean statements mirrored (all theorems of lean/EG/Props/C19/Triangle.lean and
@@ -51,7 +58,7 @@
 use crate::common::*;
 use crate::m_line::pts_digest;
 use embedded_graphics::{
-    pixelcolor::BinaryColor,
+    pixelcolor::{BinaryColor, Rgb565},
     prelude::*,
     primitives::{ContainsPoint, Line, PrimitiveStyle, Rectangle, Triangle},
 };
@@ -390,6 +397,34 @@ fn random_triangle(rng: &mut Rng) -> [P; 3] {
     v
 }
 
+fn exec_draw(op: &str, t: &mut Toks, ctx: &mut Ctx) -> String {
+    let v: [P; 3] = read_pts(t);
+    let kind = t.u32();
+    let bbox = t.rect();
+    let tri = tri_of(&v);
+    ctx.count(if kind == 0 { "draw:fill" } else { "draw:outline" });
+    let style = if kind == 0 { PrimitiveStyle::with_fill(Rgb565::new(0, 0, 7)) } else { PrimitiveStyle::with_stroke(Rgb565::new(0, 0, 9), 1) };
+    let styled = tri.into_styled(style);
+    let mut r2: R2<Rgb565> = R2::new(bbox);
+    styled.draw(&mut r2).expect("no fault");
+    let painted: Vec<Point> = r2.rec.map.keys().map(|(y, x)| Point::new(*x, *y)).collect();
+    // the reference: points() / outline pixels(), restricted to the box, as a row-major set
+    let all: Vec<Point> = if kind == 0 { tri.points().take(CAP).collect() } else { styled.pixels().take(CAP).map(|p| p.0).collect() };
+    let mut want: Vec<(i32, i32)> = all.iter().filter(|p| bbox.contains(**p)).map(|p| (p.y, p.x)).collect();
+    want.sort();
+    want.dedup();
+    let want: Vec<Point> = want.into_iter().map(|(y, x)| Point::new(x, y)).collect();
+    let clipped = all.len() != all.iter().filter(|p| bbox.contains(**p)).count();
+    ctx.count(if clipped { "draw:partly-outside-the-target" } else { "draw:inside-the-target" });
+    if !want.is_empty() && clipped {
+        ctx.nontrivial(op);
+    }
+    ctx.expect(painted == want, "C19:tri-draw-ne-points-clipped", || {
+        format!("{} painted {} want {}", op, pts_digest(&painted), pts_digest(&want))
+    });
+    format!("m={}", pts_digest(&painted))
+}
+
 impl Module for M {
     fn name(&self) -> &'static str {
         "tri"
@@ -444,6 +479,25 @@ impl Module for M {
                 }
             }
         }
+        if c19 {
+            // draw() on bounded targets: triangles sticking out on every side of the target's box
+            let boxes: [(i32, i32, u32, u32); 4] = [(0, 0, 6, 5), (-3, -2, 4, 4), (2, 1, 3, 6), (-20, -20, 64, 64)];
+            let mut n = 0u64;
+            grid_triples(g2, -5, -3, 3, 2, &mut |v| {
+                n += 1;
+                if n % 3 == 0 {
+                    let b = boxes[(n as usize / 3) % boxes.len()];
+                    emit(format!("{} {} {} {} {} {}", op3("tri.draw", &v), (n / 3) % 2, b.0, b.1, b.2, b.3));
+                }
+            });
+            let nd = if quick { 600 } else { 10_000 };
+            for i in 0..nd {
+                let v = random_triangle(rng);
+                let (bx, by) = (rng.range(-40, 30) as i32, rng.range(-40, 30) as i32);
+                let (bw, bh) = (rng.range(1, 50) as u32, rng.range(1, 50) as u32);
+                emit(format!("{} {} {} {} {} {}", op3("tri.draw", &v), i % 2, bx, by, bw, bh));
+            }
+        }
         // random larger
         let (np, no, nq) = if quick { (2000, 600, 600) } else { (50_000, 10_000, 20_000) };
         for _ in 0..np {
@@ -479,6 +533,7 @@ impl Module for M {
             "tri.points" => exec_points(op, &mut t, ctx),
             "tri.outline" => exec_outline(op, &mut t, ctx),
             "tri.pair" => exec_pair(op, &mut t, ctx),
+            "tri.draw" => exec_draw(op, &mut t, ctx),
             _ => panic!("unknown op {}", op),
         }
     }
